@@ -276,7 +276,7 @@ def run(rep, tier, seed, keep=False):
                                          'INVARIANT RaisedIsFinal\n' % n, wd, workers=2))
             rep.tlc('Limits/M limiter N=%d' % n, r)
         # ---------------- G: result shapes around N
-        cfg = 'SPECIFICATION Spec\nCONSTANTS\n Depth = 1\n Mode = "limits"\n Ns = {0, 1, 2, 3, 4}\nINVARIANT PlainOut\n'
+        cfg = 'SPECIFICATION Spec\nCONSTANTS\n Depth = 1\n Mode = "limits"\n Ns = %s\nINVARIANT PlainOut\n' % ('{0, 1, 2, 3, 4}' if quick else '{0, 1, 2, 3, 4, 5, 6}')
         dump = wd + '/shapes'
         r = tlc.ok(tlc.run('MC_Convert', cfg, wd, workers=8, dump=dump))
         rep.tlc('Convert/G result shapes x widths 0..5 x N 0..4', r)
@@ -318,7 +318,7 @@ def run(rep, tier, seed, keep=False):
             events.append(ev)
         swept = set()
         allfn = set()
-        for n in (0, 1, 10):
+        for n in ((0, 1, 10) if quick else (0, 1, 2, 3, 10, 37)):
             engine = yaql.YaqlFactory().create(options={'yaql.limitIterators': n})
             engine_raw = yaql.YaqlFactory().create(options={'yaql.limitIterators': n, 'yaql.convertInputData': False})
             for ctxname, cx in (('default', host_functions(yaql.create_context(delegates=True))),):
@@ -369,9 +369,9 @@ def run(rep, tier, seed, keep=False):
                   "dict($l.select([$, $]) + $l.select([-$ - 1, $])).len()", "dict($l.select([$, $]) + $l.select([-$ - 1, $])).containsKey(1)",
                   "dict(($l + $l.select(-$ - 1)).select([$, 1]))", "($l + $l.select(-$ - 1)).toDict($, 1).len()", "dict($l.zip($l)).set(a, 1).len()",
                   "[$s + $s].len()", "$s + $s + $s + $s", "($s + $s).len()", "$l.toSet().union(($l + [99]).toSet())", "dict(a => $s).set(b, $s + $s)", "$s.trim() + $s.trimLeft()"]
-        for q in (256, 1000, 4096, 65536):
+        for q in ((256, 1000, 4096, 65536) if quick else (200, 256, 1000, 2048, 4096, 20000, 65536)):
             engine = yaql.YaqlFactory().create(options={'yaql.memoryQuota': q})
-            for sz in (q // 4, q // 2 + 20, q - 60):
+            for sz in ((q // 4, q // 2 + 20, q - 60) if quick else (q // 4, q // 3, q // 2 + 20, q - 200, q - 60)):
                 cx = yaql.create_context()
                 sizes = []
                 # wrap every payload once so that the sizes of the arguments it receives are recorded
